@@ -79,10 +79,11 @@ def work(arg):
 
 
 def work_free(arg):
-    combo, seed, reps = arg
+    combo, seed, reps = arg[:3]
+    variant = arg[3] if len(arg) > 3 else "tsan"
     job = [spec_line(i, s, thread_data(i, seed)) for i, s in enumerate(combo)]
     job.append("free threads=%s reps=%d" % (",".join(str(i) for i in range(len(combo))), reps))
-    cs = core.drv("sched", "\n".join(job) + "\n", variant="tsan", timeout=7200)
+    cs = core.drv("sched", "\n".join(job) + "\n", variant=variant, timeout=7200)
     c = cs[0]
     return combo, c.first("R"), c.status(), c.x
 
@@ -121,9 +122,10 @@ def run(ctx):
     reps = 30 if thorough else 10
     races = 0
     import os
-    free_jobs = [] if os.environ.get("VERIF_COV") else [(c, ctx.seed, reps) for c in combos]   # ./vf coverage has no tsan variant
-    for combo, r, status, x in core.pmap(work_free, free_jobs):
-        name = "+".join(combo)
+    # both checksum backends: the bundled SHA code is library-owned memory too (thread data uses SHA-1, SHA-256, SHA-512 and SHA-512/128)
+    free_jobs = [] if os.environ.get("VERIF_COV") else [(c, ctx.seed, reps, v) for v in ("tsan", "tsan-bundled") for c in combos]   # ./vf coverage has no tsan variant
+    for (combo, r, status, x), fj in zip(core.pmap(work_free, free_jobs), free_jobs):
+        name = "+".join(combo) + ("" if fj[3] == "tsan" else " (bundled checksum backend)")
         if r is None and status.get("exit") == 3 and "ThreadSanitizer" not in status["san"]:
             raise core.HarnessError("driver gave up in the free-running pass of %s: %s" % (name, status))
         ctx.evaluations += reps
@@ -136,10 +138,10 @@ def run(ctx):
                     site = ln.split("/src/lib/")[-1].split(" ")[0].split(":")[0]
                     break
             ctx.violation({"check": "C19", "predicate": "data-race", "site": site},
-                          "%s free-running under ThreadSanitizer: %s" % (name, san[:600]), {"combo": list(combo), "free": True, "reps": reps})
+                          "%s free-running under ThreadSanitizer: %s" % (name, san[:600]), {"combo": list(combo), "free": True, "reps": reps, "variant": fj[3]})
         elif r is None:
             ctx.violation({"check": "C19", "predicate": "crash-in-free-running-pass", "combo": name}, "%s: %s" % (name, status), {"combo": list(combo), "free": True, "reps": reps})
-    ctx.extra["tsan_pass"] = {"pairs": len(combos), "repetitions": reps, "pairs_with_reports": races}
+    ctx.extra["tsan_pass"] = {"pairs": len(combos), "backends": ["openssl", "bundled"], "repetitions": reps, "pairs_with_reports": races}
     ctx.sample({"threads": ["copy", "copy"], "schedule": "thread 0 up to its write, thread 1 up to its write, thread 0 continues (2 preemptions)",
                 "expect": "both targets identical to their serial results"})
 
@@ -148,7 +150,7 @@ def replay(case, quiet=True):
     import os
     seed = int(os.environ.get("VERIF_SEED", "0") or 0)
     if case.get("free"):
-        combo, r, status, x = work_free((tuple(case["combo"]), seed, case["reps"] * 3))
+        combo, r, status, x = work_free((tuple(case["combo"]), seed, case["reps"] * 3, case.get("variant", "tsan")))
         return {"violated": "ThreadSanitizer" in status["san"] or r is None, "detail": status["san"][:300]}
     combo, e, bads, status, done = work((tuple(case["combo"]), case["bound"], seed, 0))
     return {"violated": (not done) or e is None or int(e["bad"]) > 0, "detail": bads[:1]}
